@@ -4,7 +4,7 @@ import Chartparse.Proofs.ImpRules
     each is the fold that hands every datum, together with the event built just before it (`None` for the first), to the
     event type's `from_parsed_data`, and collects the results in order; the first failure ends the call. -/
 namespace Chartparse.Tie
-open Chartparse Chartparse.Imp
+open Chartparse Chartparse.PyImp
 
 /-- the event built last (`events[-1] if events else None`) -/
 def lastOr (acc : List Val) : Val := acc.getLast?.getD .none
